@@ -114,6 +114,20 @@ func (s *seeder) put(what, b, k, content string, hdr ...string) Object {
 
 // Seed builds the seeded store through gateway 0 of env (root credentials). The
 // gateway must run with a versioning directory (gw.Config{Versioning: true}).
+//
+// Seed a store at the path it will be served from: with --sidecar the metadata of
+// object versions is filed under the absolute path of the versioning directory, so
+// a seeded store that is copied elsewhere loses them. To reset a store, keep a
+// snap.CopyTree of it and copy that back to the same path (gateway stopped: the IAM
+// cache lives in the process). Typical use:
+//
+//	env, _ := fx.New("cXX", gw.Config{Versioning: true}, 1)
+//	st, err := catalog.Seed(env)
+//	for _, e := range catalog.All() {
+//	    a := e.Bind(st)                                  // tweak a.Bucket / a.Key / ... at will
+//	    rq := e.Request(a, catalog.BodyValid).Req()      // *s3c.Req: add credentials / knobs
+//	    resp := env.Client(0).Do(rq)
+//	}
 func Seed(env *fx.Env) (*State, error) {
 	st := &State{
 		Admin:    Account{"cnryadmin", "CNRYsecretOfAdmin0001", "admin"},
